@@ -40,6 +40,9 @@ type KAScenario struct {
 	// on pinging every 0.15 x K and must still be connected with every PINGREQ
 	// answered (from its own point of view it always had a write in progress).
 	Flood bool `json:"flood,omitempty"`
+	// HugeK: a keep-alive near the top of the 16-bit range (54614, 54615, 65535 s): the client
+	// pings after pauses of 0.5, 0.5, 3.5 and 0.5 s and must of course still be connected.
+	HugeK int `json:"huge_k,omitempty"`
 }
 
 type C19Case struct {
@@ -96,6 +99,9 @@ func runC19(c C19Case) (fails []string, incon int, classes []string) {
 			K := time.Duration(sc.K) * time.Second
 			cn := b.Dial(fmt.Sprintf("ka%d", si))
 			cp := wire.ConnectPacket(fmt.Sprintf("ka%d", si), true, uint16(sc.K))
+			if sc.HugeK > 0 {
+				cp.KeepAlive = uint16(sc.HugeK)
+			}
 			cp.ConnectFlags |= 4
 			cp.WillTopic, cp.WillMessage = []byte(fmt.Sprintf("ka/will/%d", si)), []byte("expired")
 			if _, err := cn.Connect(cp); err != nil {
@@ -106,6 +112,24 @@ func runC19(c C19Case) (fails []string, incon int, classes []string) {
 			if sc.Feed {
 				cn.Send(&codec.Packet{Type: codec.SUBSCRIBE, PacketID: 999, Topics: [][]byte{[]byte("ka/feed")}, QoSs: []byte{0}})
 				o.cls = append(o.cls, "receives-deliveries-while-silent-or-active")
+			}
+			if sc.HugeK > 0 {
+				for i, gap := range []time.Duration{500, 500, 3500, 500} {
+					time.Sleep(gap * time.Millisecond)
+					if err := cn.Send(&codec.Packet{Type: codec.PINGREQ}); err != nil {
+						o.fail = fmt.Sprintf("scenario %d (K=%ds): the connection was closed although the client's pauses (0.5 s, 0.5 s, 3.5 s, 0.5 s) are nowhere near its keep-alive: PINGREQ %d: %v", si, sc.HugeK, i+1, err)
+						return
+					}
+					if _, err := cn.Take(func(p *codec.Packet) bool { return p.Type == codec.PINGRESP }, 3*time.Second); err != nil {
+						o.fail = fmt.Sprintf("scenario %d (K=%ds): PINGREQ %d was not answered (%v) although the client's pauses (0.5 s, 0.5 s, 3.5 s, 0.5 s) are nowhere near its keep-alive", si, sc.HugeK, i+1, err)
+						return
+					}
+				}
+				o.cls = append(o.cls, "keep-alive-near-65535")
+				cn.Send(&codec.Packet{Type: codec.DISCONNECT})
+				cn.WaitTeardown(wire.DefaultWait)
+				cn.Close()
+				return
 			}
 			if sc.Flood {
 				var resp atomic.Int64
@@ -159,6 +183,10 @@ func runC19(c C19Case) (fails []string, incon int, classes []string) {
 					p = &codec.Packet{Type: codec.PUBLISH, Topic: []byte("ka/traffic"), Payload: []byte("x")}
 				case "pub1":
 					p = &codec.Packet{Type: codec.PUBLISH, QoS: 1, PacketID: pid, Topic: []byte("ka/traffic"), Payload: []byte("x")}
+				case "pubblock":
+					// a packet of exactly 8192 bytes: one full read block of the broker's receiver (and the
+					// largest packet its 16 KiB buffer takes in)
+					p = &codec.Packet{Type: codec.PUBLISH, Topic: []byte("ka/traffic"), Payload: make([]byte, 8192-15)}
 				default:
 					p = &codec.Packet{Type: codec.SUBSCRIBE, PacketID: pid, Topics: [][]byte{[]byte("ka/none")}, QoSs: []byte{0}}
 				}
@@ -297,7 +325,7 @@ func genC19(t *rapid.T) C19Case {
 		sc := KAScenario{K: rapid.SampledFrom([]int{1, 1, 2}).Draw(t, "k"), Silent: rapid.IntRange(0, 2).Draw(t, "silent") > 0, Feed: rapid.IntRange(0, 2).Draw(t, "feed") == 0}
 		budget := 500 // percent of K spent on gaps at most
 		for j, m := 0, rapid.IntRange(0, 8).Draw(t, "nsteps"); j < m && budget > 0; j++ {
-			st := KAStep{GapPct: rapid.SampledFrom([]int{20, 28, 35, 50, 70, 80, 85, 97}).Draw(t, "gap"), Kind: rapid.SampledFrom([]string{"ping", "ping", "pub0", "pub1", "sub"}).Draw(t, "kind")}
+			st := KAStep{GapPct: rapid.SampledFrom([]int{20, 28, 35, 50, 70, 80, 85, 97}).Draw(t, "gap"), Kind: rapid.SampledFrom([]string{"ping", "ping", "pub0", "pub1", "sub", "pubblock"}).Draw(t, "kind")}
 			budget -= st.GapPct
 			sc.Steps = append(sc.Steps, st)
 			if rapid.IntRange(0, 5).Draw(t, "short-then-long") == 0 && budget > 0 {
@@ -314,6 +342,9 @@ func genC19(t *rapid.T) C19Case {
 		}
 		if i == 7 && rapid.IntRange(0, 1).Draw(t, "flood") == 0 {
 			sc = KAScenario{K: 1, Flood: true}
+		}
+		if i == 6 {
+			sc = KAScenario{K: 1, HugeK: rapid.SampledFrom([]int{54613, 54614, 54615, 54616, 65535}).Draw(t, "hugekv")}
 		}
 		c.Scenarios = append(c.Scenarios, sc)
 	}
